@@ -9,5 +9,6 @@ int main(int argc, char **argv) {
     RUN("future_async_mt", o.threads, true, scn::future_async_mt(o, R, T, o.cases / 2 + 1));
     RUN("frame_owned_parties", 1, true, scn::frame_owned_parties(o, R, o.cases));
     RUN("callback_awaiter_reuse", 1, true, scn::callback_awaiter_reuse(o, R, o.cases));
+    RUN("future_many_waiters", 1, true, scn::future_many_waiters(o, R, o.cases));
     return 0;
 }
